@@ -44,9 +44,16 @@ def from_impl(h: C.Hierarchy, t):
     return (inv[id(t.operator)], [from_impl(h, p) for p in t.params])
 
 
+_SHARE = {"n": 0}
+
+
 def impl_obs(h, f, x):
     import transforge.type as T
-    F, X = h.inst(f), h.inst(x)
+    # every other case shares equal subterms between the function type and the
+    # argument (one object used in several places), the rest uses fresh objects
+    _SHARE["n"] += 1
+    memo = {} if _SHARE["n"] % 2 else None
+    F, X = h.inst(f, memo), h.inst(x, memo)
     try:
         r = F.apply(X)
     except T.TypingError as e:
